@@ -64,13 +64,16 @@ Definition qsqrt_exact (z : Z) : option Q :=
   let r := Z.sqrt z in if (r * r =? z)%Z && (0 <? z)%Z then Some (inject_Z r) else None.
 Definition all_some {A} (l : list (option A)) : option (list A) :=
   fold_right (fun a acc => match a, acc with Some x, Some r => Some (x :: r) | _, _ => None end) (Some []) l.
+(* (the ring operations are followed by Qred only to keep the fractions small when evaluating) *)
+Definition radd (a b : Q) : Q := Qred (a + b).
+Definition rsub (a b : Q) : Q := Qred (a - b).
 Definition qrot (s : list bool) (x : list Q) : option (list Q) :=
-  match rot 0 Qplus Qminus Qopp s x with
+  match rot 0 radd rsub Qopp s x with
   | WOk (u, z) => match qsqrt_exact z with Some r => Some (map (fun a => Qred (a / r)) u) | None => None end
   | _ => None
   end.
 Definition qinv (s : list bool) (y : list Q) (size : Z) : option (list Q) :=
-  match inv_rot 0 Qplus Qminus Qopp s y [size] with
+  match inv_rot 0 radd rsub Qopp s y [size] with
   | WOk (w, z, _) => match qsqrt_exact z with Some r => Some (map (fun a => Qred (a / r)) w) | None => None end
   | _ => None
   end.
@@ -166,24 +169,29 @@ Definition tolq : Q := 1 # 100000.
 Definition sclose (sc : Q) (a : nq) (b : Q) : bool :=
   match a with Some x => Qle_bool (Qabs (x - b)) (tolq * sc) | None => false end.
 
-Definition sweep_ok (sc : Q) (G : Z) (f : Q -> nq) (o : sweep) : bool :=
-  sclose sc (f (1 / inject_Z G)) (sw_hi o) && sclose sc (f (inject_Z (G - 1) / inject_Z G)) (sw_lo o) &&
+(* the four model values of one coordinate: at u = 1/G, (G-1)/G, and just inside the two
+   ends of the located cell [g/G, (g+1)/G) (slack 1e-3 of a cell) *)
+Definition sweep_ok (sc : Q) (G : Z) (o : sweep) (m : nq * (nq * (nq * nq))) : bool :=
+  let '(m_hi, (m_lo, (m_a, m_b))) := m in
+  sclose sc m_hi (sw_hi o) && sclose sc m_lo (sw_lo o) &&
   (if Qle_bool (Qabs (sw_lo o - sw_hi o)) (tolq * sc) then true
-   else
-     (* the threshold lies in the located cell [g/G, (g+1)/G) (slack 1e-3 of a cell) *)
-     sclose sc (f ((inject_Z (sw_g o) - (1 # 1000)) / inject_Z G)) (sw_hi o) &&
-     ((sw_g o + 1 >=? G)%Z || sclose sc (f ((inject_Z (sw_g o) + 1 + (1 # 1000)) / inject_Z G)) (sw_lo o))).
+   else sclose sc m_a (sw_hi o) && ((sw_g o + 1 >=? G)%Z || sclose sc m_b (sw_lo o))).
 
 Inductive qfn := FUsq (L : Z) | FBsq | FTern (sigma : Q).
 
-Definition quant1 (fn : qfn) (v : list nq) (i : nat) (u : Q) : nq :=
-  let us := repeat u (length v) in
-  nth i (match fn with FUsq L => usq v L us | FBsq => bsq v us | FTern sg => tern sg v us end) None.
+Definition qvec (fn : qfn) (v : list nq) (us : list Q) : list nq :=
+  match fn with FUsq L => usq v L us | FBsq => bsq v us | FTern sg => tern sg v us end.
 
 Definition uagree (fn : qfn) (v : list Q) (G : Z) (obs : list sweep) : bool :=
-  (length obs =? length v)%nat &&
+  let n := length v in
+  let lv := lift v in
   let sc := fold_right (fun x acc => Qred (Qabs x + acc)) 0 v in
-  forallb (fun io => sweep_ok sc G (quant1 fn (lift v) (fst io)) (snd io)) (combine (seq 0 (length v)) obs).
+  let o_hi := qvec fn lv (repeat (1 / inject_Z G) n) in
+  let o_lo := qvec fn lv (repeat (inject_Z (G - 1) / inject_Z G) n) in
+  let o_a := qvec fn lv (map (fun o => (inject_Z (sw_g o) - (1 # 1000)) / inject_Z G) obs) in
+  let o_b := qvec fn lv (map (fun o => (inject_Z (sw_g o) + 1 + (1 # 1000)) / inject_Z G) obs) in
+  (length obs =? n)%nat && (length o_hi =? n)%nat && (length o_lo =? n)%nat && (length o_a =? n)%nat && (length o_b =? n)%nat &&
+  forallb (fun om => sweep_ok sc G (fst om) (snd om)) (combine obs (combine o_hi (combine o_lo (combine o_a o_b)))).
 
 Definition dagree (x : list Q) (obs : list Q) : bool := all2 (qclose tolq) (drive_leaf (lift x)) obs.
 
